@@ -486,6 +486,46 @@ fn sequential(args: &Args) {
     }
 }
 
+/// A replacement whose new map describes the SAME guest ranges backed by the SAME host memory, but
+/// through fresh region objects (externally provided windows over the existing mappings, e.g. to
+/// attach fresh dirty bitmaps): it is a different map and must be published like any other.
+#[cfg(not(feature = "xen"))]
+fn replacement_aliasing_the_same_memory() {
+    use vm_memory::bitmap::Bitmap;
+    use vm_memory::{GuestMemoryRegion, MmapRegion};
+    type TMap = vm_memory::GuestMemoryMmap<vm_memory::bitmap::AtomicBitmap>;
+    let first: TMap = TMap::from_ranges(&[(GuestAddress(0x1000), 0x2000), (GuestAddress(0x10000), 0x1000)]).unwrap();
+    let keep_alive = first.clone(); // owns the mappings for the whole test
+    let at = GuestMemoryAtomic::new(first);
+    let other = at.clone();
+    for round in 0..6u64 {
+        let cur = at.memory();
+        // dirty something through the current map
+        let _ = cur.write_obj::<u8>(round as u8 + 1, GuestAddress(0x1000 + round * 0x400));
+        let mut regs = vec![];
+        for r in keep_alive.iter() {
+            // SAFETY: a window over a mapping that `keep_alive` keeps mapped.
+            let raw = unsafe { MmapRegion::<vm_memory::bitmap::AtomicBitmap>::build_raw(r.as_ptr(), r.len() as usize, libc::PROT_READ | libc::PROT_WRITE, libc::MAP_ANONYMOUS | libc::MAP_PRIVATE) }.unwrap();
+            regs.push(Arc::new(vm_memory::GuestRegionMmap::new(raw, r.start_addr()).unwrap()));
+        }
+        let ptrs: Vec<usize> = regs.iter().map(|a| Arc::as_ptr(a) as usize).collect();
+        let next = TMap::from_arc_regions(regs).unwrap();
+        drop(cur);
+        (if round % 2 == 0 { &at } else { &other }).lock().unwrap().replace(next);
+        for (hn, h) in [("handle", &at), ("clone", &other)] {
+            let snap = h.memory();
+            let now: Vec<usize> = snap.iter().map(|r| r as *const _ as usize).collect();
+            let fresh_bitmaps_clean = snap.iter().all(|r| !r.bitmap().dirty_at(round as usize * 0x400));
+            if now != ptrs || !fresh_bitmaps_clean {
+                v("alias/snapshot-after-a-completed-replacement-shows-the-old-map", jobj! {"round" => round, "through" => hn, "region_objects_are_the_new_ones" => now == ptrs, "bitmaps_are_the_fresh_ones" => fresh_bitmaps_clean});
+                return;
+            }
+        }
+    }
+    out::key("replacement-aliasing-the-same-host-memory", true);
+    out::eval(6);
+}
+
 /// Very long update histories on one replaceable memory (counters wrap at 2^16): after EVERY one
 /// of 2^16 + 2^15 completed replacements the next snapshot shows the map just installed (the maps
 /// alternate between two and three regions, so a single skipped or stale publication is visible).
@@ -545,6 +585,12 @@ pub fn run(args: &Args) {
     if mode != "stress" {
         if let Err(p) = guarded(plain_address_spaces) {
             v(&format!("panic/plain/{}", panic_sig(&p)), J::s(p));
+        }
+        #[cfg(not(feature = "xen"))]
+        if !cfg!(miri) {
+            if let Err(p) = guarded(replacement_aliasing_the_same_memory) {
+                v(&format!("panic/alias/{}", panic_sig(&p)), J::s(p));
+            }
         }
         if !cfg!(miri) {
             if let Err(p) = guarded(long_update_history) {
